@@ -62,6 +62,8 @@ impl Primitive {
         match self {
             Primitive::Null => write!(out, "null")?,
             Primitive::Integer(i) => write!(out, "{}", i)?,
+            // a whole number beyond the range of an integer object keeps a decimal point: it reads back as a real
+            Primitive::Number(n) if n.fract() == 0.0 && n.abs() >= 2147483648.0 => write!(out, "{:.1}", n)?,
             Primitive::Number(n) => write!(out, "{}", n)?,
             Primitive::Boolean(b) => write!(out, "{}", b)?,
             Primitive::String(ref s) => s.serialize(out)?,
